@@ -64,9 +64,13 @@ def gen_grid_case(r, which):
     pos = [0.0, 0.0, 0.0]
     ref12 = []
     R = r.choice(mc.AXIS_ROTS)
+    # path-pair variant (evo_rpe, delta in metres): fine rational steps so that | path - delta | falls between
+    # rel_tol and delta * rel_tol; no geometry options, so the path lengths stay on the exact grid
+    fine = which == "rpe" and r.random() < 0.35
     for k in range(n):
         if r.random() < 0.8:
-            step = r.choice([(3, 4, 0), (0, 3, 4), (4, 0, 3), (-3, 0, 4), (0, 0, 0), (6, 8, 0)])
+            step = r.choice([(3, 4, 0), (0, 3, 4), (4, 0, 3), (-3, 0, 4), (0, 0, 0), (6, 8, 0)]) if not fine else \
+                r.choice([(0, 0, 1), (0, 0, 2), (0, 0, 3), (3, 4, 0), (0, 1, 0), (0, 0, 0), (0, 0, 5)])
             pos = [pos[i] + step[i] / 8 for i in range(3)]
         if r.random() < 0.4:
             R = r.choice(mc.AXIS_ROTS)
@@ -98,7 +102,7 @@ def gen_grid_case(r, which):
             "ref_ns": ref_ns}
     o = {"pose_relation": r.choice(mc.RELS[:6] if which == "ape" else mc.RELS)}
     if fmt != "kitti":
-        o["t_max_diff"] = r.choice([0.015625, 0.015625, 0.03125, 0.0])
+        o["t_max_diff"] = r.choice([0.015625, 0.015625, 0.03125, 0.0, 0.25])
         if r.random() < 0.4:
             o["t_start"] = r.choice(ref_stamps)
         if r.random() < 0.4:
@@ -108,13 +112,22 @@ def gen_grid_case(r, which):
     if r.random() < 0.3:
         o["downsample"] = r.choice([2, 3, n - 1, n, max(2, n // 2)])
     k = r.random()
-    if k < 0.3:
+    if fine:
+        pass
+    elif k < 0.3:
         o["align"] = True
     elif k < 0.45:
         o["align_origin"] = True
-    if r.random() < 0.3:
+    if not fine and r.random() < 0.3:
         o["correct_scale"] = True
-    if which == "rpe":
+    if fine:
+        o["delta_unit"] = "m"
+        o["delta"] = r.choice([0.5, 2.5, 1.25, 0.25, 2.0])
+        o["delta_tol"] = r.choice([0.1, 0.5, 0.25, 0.125])
+        o["all_pairs"] = r.random() < 0.8
+        if r.random() < 0.5:
+            o["pairs_from_reference"] = True
+    elif which == "rpe":
         u = r.choice(["f", "f", "m"])
         o["delta_unit"] = u
         o["delta"] = {"f": r.choice([1.0, 2.0]), "m": r.choice([0.625, 1.25])}[u]
@@ -125,6 +138,49 @@ def gen_grid_case(r, which):
         if r.random() < 0.3:
             o["delta_tol"] = r.choice([0.5, 0.25])
     return {"kind": "cli", "which": which, "stream": "grid", "fmt": fmt, "data": data, "off": off, "opts": o}
+
+
+def gen_rigid_case(r, which):
+    """the estimate is an exact rigid (or similarity) image of the reference — planar (z = 0), seen from a frame with
+    the opposite "up", exactly three poses or `--n_to_align 3`: Umeyama alignment must bring every error to zero"""
+    fmt = r.choice(["tum", "kitti"])
+    shape = r.choice(["planar", "planar-flipped", "three", "general"])
+    n = 3 if shape == "three" else r.randint(4, 10)
+    pos, ref12 = [0.0, 0.0, 0.0], []
+    for k in range(n):
+        step = r.choice([(3, 4, 0), (4, -3, 0), (-3, 4, 0), (6, 8, 0), (0, 5, 0)]) if shape != "general" else \
+            r.choice([(3, 4, 0), (0, 3, 4), (4, 0, 3), (-3, 0, 4)])
+        pos = [pos[i] + step[i] / 8 for i in range(3)]
+        Rz = r.choice([m for m in mc.AXIS_ROTS if m[2][2] == 1.0]) if shape != "general" else r.choice(mc.AXIS_ROTS)
+        ref12.append(mc.mat_pose(Rz, pos))
+    T = np.eye(4)
+    if shape == "planar-flipped":
+        T[:3, :3] = np.array(r.choice([m for m in mc.AXIS_ROTS if m[2][2] == -1.0]))     # opposite "up"
+    elif shape == "planar":
+        T[:3, :3] = np.array(r.choice([m for m in mc.AXIS_ROTS if m[2][2] == 1.0]))
+    else:
+        T[:3, :3] = np.array(r.choice(mc.AXIS_ROTS))
+    T[:3, 3] = [r.randint(-16, 16) / 8, r.randint(-16, 16) / 8, 0.0 if shape.startswith("planar") else r.randint(-8, 8) / 8]
+    o = {"pose_relation": r.choice(["trans_part", "full", "rot_part", "angle_rad", "point_distance"]), "align": True}
+    sc = 1.0
+    if r.random() < 0.4:
+        sc = r.choice([0.5, 2.0])
+        o["correct_scale"] = True
+    if shape != "three" and r.random() < 0.5:
+        o["n_to_align"] = 3
+    est12 = []
+    for p in ref12:
+        m = mc.pose12_to_np(p)
+        m[:3, 3] = m[:3, 3] * sc
+        est12.append(mc.np_to_pose12(T @ m))
+    stamps = [k / 4 for k in range(n)]
+    if fmt != "kitti":
+        o["t_max_diff"] = r.choice([0.0, 0.25, 0.01])
+    if which == "rpe":
+        o["delta"], o["delta_unit"] = 1.0, "f"
+    data = {"ref12": ref12, "est12": est12, "ref_stamps": stamps, "est_stamps": list(stamps), "ref_ns": None}
+    return {"kind": "cli", "which": which, "stream": "rigid", "rigid_copy": True, "shape": shape, "fmt": fmt, "data": data,
+            "off": None, "opts": o}
 
 
 def gen_opts(r, which, fmt, data):
@@ -216,6 +272,8 @@ def gen_cli_cases0(ctx, which):
            "opts": dict({"pose_relation": "trans_part", "t_end": 0.0}, **({"delta": 1.0, "delta_unit": "f"} if which == "rpe" else {}))}
     for _ in range(60 if not ctx.thorough else 1200):
         yield gen_grid_case(r, which)
+    for _ in range(30 if not ctx.thorough else 400):
+        yield gen_rigid_case(r, which)
     for _ in range(n_cases):
         fmt = r.choice(["tum", "tum", "kitti", "euroc"])
         n = r.randint(6, 24)
@@ -504,7 +562,7 @@ def opt_float(tok):
     return None if tok == "-" else float(core.parse_rat(tok))
 
 
-def apply_steps(steps, ref, est, stop_before_metric=False, capture=None):
+def apply_steps(steps, ref, est, stop_before_metric=False, capture=None, own_assoc=None):
     """interpret a list of steps ([name, args…], rationals as p/q text or floats) with evo's core API;
     `capture` (a dict) receives the poses the metric step sees"""
     from evo.core import sync, metrics
@@ -535,6 +593,19 @@ def apply_steps(steps, ref, est, stop_before_metric=False, capture=None):
                 s = None if st[1] in ("-", None) else num(st[1])
                 e = None if st[2] in ("-", None) else num(st[2])
                 ref.reduce_to_time_range(s, e)
+            elif op == "associate" and own_assoc is not None:
+                # oracle: the association of the property text, not evo's (exact arithmetic on the stamps)
+                i1, i2, margin = own_associate(ref.timestamps, est.timestamps, num(st[1]), num(st[2]))
+                mag = max([abs(float(x)) for x in list(ref.timestamps) + list(est.timestamps)] + [1.0])
+                if own_assoc["grid"] or margin > Fraction(32, 2 ** 52) * frac(mag):
+                    own_assoc["used"] = True
+                    if not i1:
+                        raise sync.SyncException("oracle: no pose pair within max_diff")
+                    ref, est = copy.deepcopy(ref), copy.deepcopy(est)
+                    ref.reduce_to_ids(i1)
+                    est.reduce_to_ids(i2)
+                else:
+                    ref, est = sync.associate_trajectories(ref, est, num(st[1]), num(st[2]))
             elif op == "associate":
                 ref, est = sync.associate_trajectories(ref, est, num(st[1]), num(st[2]))
             elif op == "align":
@@ -658,7 +729,7 @@ def compare_model_run(ctx, case, impl, run, which):
     mtoks = fields[-1].split()
     margin = core.parse_rat(mtoks[0])                                   # selection phase (stamps, motion filter)
     pmargin = core.parse_rat(mtoks[1]) if len(mtoks) > 1 else None      # pair selection (distances / angles)
-    grid = case.get("stream") == "grid"
+    grid = case.get("stream") in ("grid", "rigid")
     mag = max([abs(x) for x in cap["in_ref"][0] + cap["in_est"][0]] + [1.0])
     slack = Fraction(32, 2 ** 52) * frac(mag) if case["fmt"] != "kitti" else Fraction(1, 10 ** 12)
     # the pair selection runs on the processed estimate/reference: after an alignment its positions are no longer on
@@ -741,6 +812,67 @@ def compare_model_run(ctx, case, impl, run, which):
     ctx.notes["cli_runs_checked_end_to_end"] = ctx.notes.get("cli_runs_checked_end_to_end", 0) + 1
 
 
+# ------------------------------------------------------------------------------------------------ oracle primitives
+def own_associate(s1, s2, md, off):
+    """time association from the property text, in exact arithmetic on the given stamps: every pose of the shorter
+    trajectory is paired with its nearest counterpart (first on ties) if |t1 - (t2 + offset)| <= max_diff; a
+    counterpart claimed twice goes to the closer (earlier on equal distance). Returns (ids1, ids2, margin)."""
+    t1, t2, md, off = [frac(x) for x in s1], [frac(x) for x in s2], frac(md), frac(off)
+    first_drives = len(t2) > len(t1)
+    drive, other = (t1, t2) if first_drives else (t2, t1)
+    d = (lambda a, b: abs(b + off - a)) if first_drives else (lambda a, b: abs(a + off - b))
+    raw, margin = [], Fraction(1)
+    for i, a in enumerate(drive):
+        ds = [d(a, b) for b in other]
+        j = min(range(len(ds)), key=lambda k: (ds[k], k))
+        srt = sorted(ds)
+        if len(srt) > 1 and srt[1] != srt[0]:
+            margin = min(margin, srt[1] - srt[0])
+        if ds[j] != md:
+            margin = min(margin, abs(ds[j] - md))
+        if ds[j] <= md:
+            raw.append((i, j, ds[j]))
+    kept = [m for m in raw if not any(o[1] == m[1] and (o[2] < m[2] or (o[2] == m[2] and o[0] < m[0])) for o in raw)]
+    a, b = [m[0] for m in kept], [m[1] for m in kept]
+    return (a, b, margin) if first_drives else (b, a, margin)
+
+
+def exact_len(p, q):
+    """|p - q| of two 12-float poses as an exact rational, None when it is irrational"""
+    import math
+    sq = sum((frac(p[c]) - frac(q[c])) ** 2 for c in (3, 7, 11))
+    n, dn = math.isqrt(sq.numerator), math.isqrt(sq.denominator)
+    return Fraction(n, dn) if n * n == sq.numerator and dn * dn == sq.denominator else None
+
+
+def own_path_pairs(rows, delta, tol, all_pairs):
+    """pairs for a delta in metres from the property text (exact arithmetic; None when a step length is irrational):
+    consecutive: a pair ends where the path since the last pair end reaches delta; all pairs: for every i the pose j > i
+    whose path distance from i is closest to delta (first on ties), kept if | path - delta | <= tol (= delta * rel_tol)"""
+    steps = [exact_len(a, b) for a, b in zip(rows, rows[1:])]
+    if any(x is None for x in steps):
+        return None
+    delta, tol = frac(delta), frac(tol)
+    acc = [Fraction(0)]
+    for x in steps:
+        acc.append(acc[-1] + x)
+    if not all_pairs:
+        ids, cur = [], Fraction(0)
+        for i, x in enumerate([Fraction(0)] + steps):
+            cur += x
+            if cur >= delta:
+                ids.append(i)
+                cur = Fraction(0)
+        return list(zip(ids, ids[1:]))
+    out = []
+    for i in range(len(acc) - 1):
+        dv = [abs(acc[j] - acc[i] - delta) for j in range(i + 1, len(acc))]
+        c = min(range(len(dv)), key=lambda k: (dv[k], k))
+        if dv[c] <= tol:
+            out.append((i, c + i + 1))
+    return out
+
+
 def documented_steps(case, which):
     """the pipeline as documented (evo_ape --help, wiki): down-sampling and motion filter on both trajectories before
     the synchronisation; time range on the reference; association with max_diff and offset; Umeyama alignment
@@ -785,6 +917,17 @@ def unit_factor(rel, new):
     return None
 
 
+def is_evo_exception(name):
+    import evo
+    from evo.core import sync, filters, geometry, metrics, trajectory, lie_algebra, result
+    from evo.tools import file_interface
+    for mod in (sync, filters, geometry, metrics, trajectory, lie_algebra, result, file_interface):
+        c = getattr(mod, name, None)
+        if isinstance(c, type) and issubclass(c, evo.EvoException):
+            return True
+    return name == "EvoException"
+
+
 def cli_oracle(ctx, case, impl, which):
     from props import C01 as P1, C02 as P2
     from evo import EvoException
@@ -793,12 +936,22 @@ def cli_oracle(ctx, case, impl, which):
     steps = documented_steps(case, which)
     want_exc = None
     ref = est = None
+    grid = case.get("stream") in ("grid", "rigid")
+    # a raw Python / numpy error of the run is a failing input, except the two documented observations
+    # (Umeyama on zero poses: ZeroDivisionError; ratio relation with every pair skipped: ValueError, judged below)
+    if impl["exc"] is not None and not is_evo_exception(impl["exc"]) and impl["exc"] not in ("ZeroDivisionError", "ValueError"):
+        ctx.fail(case, "cli-raw-exception", f"evo_{which} ended in {impl['exc']}: {impl.get('exc_msg')}",
+                 tags={"exception": impl["exc"]})
+        return None
+    own = {"grid": grid, "used": False}
     if steps == "FilterException":
         want_exc = "FilterException"
     else:
         try:
             ref, est = load_fresh(case, impl["dir"])
-            ref, est, _ = apply_steps(steps, ref, est, stop_before_metric=True)
+            ref, est, _ = apply_steps(steps, ref, est, stop_before_metric=True, own_assoc=own)
+            if own["used"]:
+                ctx.count("branch", "oracle-own-association")
         except core.ToolError:
             raise
         except Exception as e:  # noqa (L12): evo's exceptions and raw Python errors of its primitives alike
@@ -811,7 +964,15 @@ def cli_oracle(ctx, case, impl, which):
         pc = {"delta": o.get("delta", 1.0), "unit": o.get("delta_unit", "f"), "tol": float(o.get("delta_tol", 0.1)),
               "all_pairs": bool(o.get("all_pairs"))}
         try:
-            pairs = P2.evo_pairs(pc, ref if o.get("pairs_from_reference") else est)
+            driving = ref if o.get("pairs_from_reference") else est
+            pairs = P2.evo_pairs(pc, driving)
+            geo = any(o.get(k) for k in ("align", "correct_scale", "align_origin", "project_to_plane"))
+            if grid and pc["unit"] == "m" and not geo and pc["delta"] > 0:
+                # exact grid: the pair definition of the property text decides, not evo's selection
+                mine = own_path_pairs(mc.seen_poses(driving), pc["delta"], frac(pc["delta"]) * frac(pc["tol"]), pc["all_pairs"])
+                if mine is not None:
+                    pairs = mine or None
+                    ctx.count("branch", "oracle-own-path-pairs")
         except Exception as e:  # delta not integral for frames etc.
             want_exc = type(e).__name__
         if pairs is None and want_exc is None:
@@ -856,6 +1017,16 @@ def cli_oracle(ctx, case, impl, which):
             ctx.fail(case, "cli-timestamps-of-the-remaining-pairs",
                      f"stored timestamps {None if got is None else list(got[:5])} … expected {list(want_stamps[:5])} …")
             return None
+    if case.get("rigid_copy"):
+        # the estimate is an exact similarity image of the reference: every error is zero after the alignment
+        m = max([abs(x) for p in case["data"]["ref12"] + case["data"]["est12"] for x in p] + [1.0])
+        ztol = 1e-8 * m * (mc.DEG if rel == "angle_deg" else 1.0) * abs(fac)
+        bad = [k for k, v in enumerate(vals) if not abs(v) <= ztol]
+        if bad:
+            ctx.fail(case, "cli-zero-for-a-rigid-copy-after-alignment",
+                     f"{rel}: value {bad[0]} is {vals[bad[0]]!r} although the estimate is an exact rigid/similarity image of the reference")
+            return None
+        ctx.count("branch", "rigid-copy-zero")
     for k, (i, j, w) in enumerate(want):
         w2 = w * fac
         tol = 4 * P2.pair_tol(rel, pim, i, j, w) * abs(fac)
